@@ -58,6 +58,18 @@ class UserClass(object):
         self.v = v
 
 
+class Falsy(object):
+    """an object that is false: whoever tests a proxy for truth instead of for presence treats it as absent"""
+
+    def __bool__(self):
+        return False
+
+
+class Empty(object):
+    def __len__(self):
+        return 0
+
+
 def a_function(x=1):
     return x + 1
 
@@ -256,7 +268,8 @@ def run_histories(chk, g, rnd, max_paths):
     for pi, path in enumerate(paths):
         fx = Fixture()
         a, b = fx.pair.a, fx.pair.b
-        fx.objs = {"o1": [1], "o2": {"k": 2}}
+        # the objects are true or false, built-in or not: identity must not depend on what the object says about itself
+        fx.objs = {"o1": [[1], [], Falsy(), set()][pi % 4], "o2": [{"k": 2}, {}, Empty(), bytearray()][(pi // 2) % 4]}
         labels = []
         try:
             cur = path[0]
